@@ -70,6 +70,8 @@ enum Case {
     Build { prefix: bool, pats: Pats, vals: Vec<String> },
     #[serde(rename = "quote")]
     Quote { prot: String, s: String }, // hex
+    #[serde(rename = "quotes")]
+    QuoteS { prot: String, ss: Vec<String> }, // hex; many inputs for one protected set
 }
 
 fn default_re() -> Vec<Atom> {
@@ -202,6 +204,14 @@ fn coq_case(c: &Case) -> String {
             format!("KBuild {} {} {}", coq_bool(*prefix), coq_pats(pats), coq_list(vals, |v| coq_bytes(v.as_bytes())))
         }
         Case::Quote { prot, s } => format!("KQuote {} {}", coq_bytes(&unhex(prot)), coq_bytes(&unhex(s))),
+        Case::QuoteS { prot, ss } => {
+            let mut s = String::new();
+            for x in ss {
+                s.push_str(x);
+                s.push(',');
+            }
+            format!("KQuoteS {} \"{}\"", coq_bytes(&unhex(prot)), s)
+        }
     }
 }
 
@@ -515,6 +525,7 @@ fn run_path(defs: &[Def], rds: &[Result<ResourceDef, String>], spec: &PathSpec, 
 struct Stats {
     pairs: usize,
     matched: usize,
+    quotes: usize,
 }
 
 fn run_match(defs: &[Def], paths: &[PathSpec], verdict: &mut Verdict, stats: &mut Stats) -> V {
@@ -656,43 +667,61 @@ fn reference_decode(prot: &[u8], s: &[u8]) -> Vec<u8> {
     out
 }
 
-fn run_quote(prot: &[u8], s: &[u8], verdict: &mut Verdict) -> V {
-    let q = match catch(|| Quoter::new(b"", prot)) {
-        Ok(q) => q,
+fn make_quoter(prot: &[u8], verdict: &mut Verdict) -> Option<Quoter> {
+    match catch(|| Quoter::new(b"", prot)) {
+        Ok(q) => Some(q),
         Err(_) => {
             if prot.iter().all(|b| *b < 128) {
                 verdict.fail("Quoter::new panicked on ASCII protected set".into());
             }
-            return V::T("quote", vec![V::t0("panic")]);
+            None
         }
-    };
+    }
+}
+
+/// one requote call, judged against the reference decoder
+fn quote_one(q: &Quoter, prot: &[u8], s: &[u8], verdict: &mut Verdict) -> V {
     let r = q.requote(s);
     let want = reference_decode(prot, s);
     match &r {
         None => {
             if want != s {
-                verdict.fail(format!("requote = None, reference decoder gives {}", hex(&want)));
+                verdict.fail(format!("requote({}) = None, reference decoder gives {}", hex(s), hex(&want)));
             }
         }
         Some(d) => {
             if *d != want {
-                verdict.fail(format!("requote = {}, reference decoder gives {}", hex(d), hex(&want)));
+                verdict.fail(format!("requote({}) = {}, reference decoder gives {}", hex(s), hex(d), hex(&want)));
             }
             if d.len() >= s.len() {
-                verdict.fail("requote returned Some without shortening the input".into());
+                verdict.fail(format!("requote({}) returned Some without shortening the input", hex(s)));
             }
             for p in prot {
                 if *p != b'%' && !p.is_ascii_hexdigit() {
                     let c1 = s.iter().filter(|b| *b == p).count();
                     let c2 = d.iter().filter(|b| *b == p).count();
                     if c1 != c2 {
-                        verdict.fail(format!("occurrences of protected byte {p:#x} changed from {c1} to {c2}"));
+                        verdict.fail(format!("requote({}): occurrences of protected byte {p:#x} changed from {c1} to {c2}", hex(s)));
                     }
                 }
             }
         }
     }
-    V::T("quote", vec![V::opt(r, |d| v_bytes_s(&d))])
+    V::opt(r, |d| v_bytes_s(&d))
+}
+
+fn run_quote(prot: &[u8], s: &[u8], verdict: &mut Verdict) -> V {
+    match make_quoter(prot, verdict) {
+        None => V::T("quote", vec![V::t0("panic")]),
+        Some(q) => V::T("quote", vec![quote_one(&q, prot, s, verdict)]),
+    }
+}
+
+fn run_quotes(prot: &[u8], ss: &[String], verdict: &mut Verdict) -> V {
+    match make_quoter(prot, verdict) {
+        None => V::T("quotes", vec![V::t0("panic")]),
+        Some(q) => V::T("quotes", ss.iter().map(|s| quote_one(&q, prot, &unhex(s), verdict)).collect()),
+    }
 }
 
 // ------------------------------------------------------------------------------------ generator
@@ -1007,6 +1036,7 @@ fn emit_case(em: &mut Emitter, id: String, case: Case, totals: &mut Stats) {
         Case::Match { defs, paths } => run_match(defs, paths, &mut verdict, &mut stats),
         Case::Build { prefix, pats, vals } => run_build(*prefix, pats, vals, &mut verdict),
         Case::Quote { prot, s } => run_quote(&unhex(prot), &unhex(s), &mut verdict),
+        Case::QuoteS { prot, ss } => run_quotes(&unhex(prot), ss, &mut verdict),
     });
     totals.pairs += stats.pairs;
     totals.matched += stats.matched;
@@ -1046,8 +1076,14 @@ fn emit_case(em: &mut Emitter, id: String, case: Case, totals: &mut Stats) {
             tags.push(format!("build:{}", if let Pats::Single(p) = pats { if delimited(false, p) { "delimited" } else { "not-delimited" } } else { "list" }));
             nontrivial = true;
         }
+        Case::QuoteS { ss, .. } => {
+            tags.push("kind:quote-batch".to_string());
+            totals.quotes += ss.len();
+            nontrivial = ss.iter().any(|s| unhex(s).contains(&b'%'));
+        }
         Case::Quote { s, .. } => {
             tags.push("kind:quote".to_string());
+            totals.quotes += 1;
             let b = unhex(s);
             nontrivial = b.contains(&b'%');
             tags.push(format!("quote:{}", if nontrivial { "has-percent" } else { "no-percent" }));
@@ -1125,17 +1161,20 @@ fn main() {
         if args.n.is_none() {
             let qlen = if thorough { 5 } else { 4 };
             let qs = all_strings(QALPHA, qlen);
-            // each case: one protected set, one input; inputs without '%' are all alike, sample them
+            // every string containing '%' (those without are all alike: every 50th), under three
+            // protected sets, 300 inputs per case
             let mut k = 0;
-            for s in &qs {
-                if !s.contains(&b'%') && k % 50 != 0 {
+            let sel: Vec<String> = qs
+                .iter()
+                .filter(|s| {
                     k += 1;
-                    continue;
-                }
-                k += 1;
-                let prot: &[u8] = if (k / 7) % 3 == 0 { b"" } else if (k / 7) % 3 == 1 { b"%/+" } else { b"/" };
-                if (thorough && k % 5 == 0) || k % 8 == 0 {
-                    emit_case(&mut em, format!("qexh-{k}"), Case::Quote { prot: hex(prot), s: hex(s) }, &mut totals);
+                    s.contains(&b'%') || k % 50 == 0
+                })
+                .map(|s| hex(s))
+                .collect();
+            for (pi, prot) in [&b""[..], b"%/+", b"/"].iter().enumerate() {
+                for (j, chunk) in sel.chunks(300).enumerate() {
+                    emit_case(&mut em, format!("qexh-{pi}-{j}"), Case::QuoteS { prot: hex(prot), ss: chunk.to_vec() }, &mut totals);
                 }
             }
         }
@@ -1159,5 +1198,6 @@ fn main() {
     }
     em.tags.insert("pattern-path-pairs".into(), totals.pairs);
     em.tags.insert("pattern-path-pairs-matching".into(), totals.matched);
+    em.tags.insert("quoter-inputs".into(), totals.quotes);
     em.finish();
 }
